@@ -13,13 +13,16 @@ def register(cid, **kw):
 def run_check(ctx, cid, tier, seed, t0):
     spec = CHECKS[cid]
     problems = []
-    ok, msg = ctx.regen()
-    if not ok:
-        problems.append({'kind': 'translator', 'detail': msg})
-    bad = ctx.lint()
-    if bad:
-        problems.append({'kind': 'lint', 'detail': bad[:20]})
-    pr = ctx.check_props(cid)
+    # regenerating the tables from the tree under test, building the property's cone against them and reading Print Assumptions is ONE
+    # critical section: a concurrent check of another tree (VERIF_REPO) regenerates Gen/Generated.v from that tree
+    with ctx.Lock('coq'):
+        ok, msg = ctx.regen()
+        if not ok:
+            problems.append({'kind': 'translator', 'detail': msg})
+        bad = ctx.lint()
+        if bad:
+            problems.append({'kind': 'lint', 'detail': bad[:20]})
+        pr = ctx.check_props(cid)
     if not pr['built']:
         problems.append({'kind': 'proof-obligation', 'detail': 'Coq build of the cone of %s failed at %s' % (pr['file'], pr.get('failed_at')),
                          'log': pr.get('log', '')[-1500:]})
